@@ -98,6 +98,14 @@ CHECKS = {
               "compared with the machine's log and tagged exceptions required to reach the consumer as the same object (also under call/N, once, findall, negation)."),
         technique="TLA+ machine with native definitions checked against the denotational reference; replay with argument log and exception identity",
         ref="5/C20"),
+    "C17": dict(
+        text=("spec/EvalBounded.tla models the call as actions over the interpreter-wide limit (Begin/Answer/ProjRaise/silent Overflow anywhere/Exhausted/End) and is "
+              "model-checked (LimitRestored, BoundedIsPrefix, ReturnsEverythingWhenShallow); the machine spec/YP.tla predicts the unbounded answer sequence of each query "
+              "(finite flat, deep, left-recursive, infinitely many answers, under negation/findall/if-then-else); the real evaluate_bounded is run for a sweep of recursion "
+              "limits (every 3rd / every value) x projection raising at answer k, each call recorded as a trace and validated by TLC against the model: result a prefix of "
+              "the reference, complete when the measured depth is below the limit, limit restored, registry clean, only the projection's own exception may escape."),
+        technique="recorded evaluate_bounded traces over a recursion-limit sweep validated by TLC against a TLA+ model; reference answers from the TLA+ machine",
+        ref="5/C17", category="model_checking"),
 }
 
 PENDING = {}
